@@ -426,6 +426,10 @@ def cases(shard, nshards, seed, tier):
     for fn in ("tests/4qln.cif", "tests/1ehz-assembly-1.cif", "tests/1E7K_1_C.cif", "tests/1DFU_1_M-N.cif"):
         if mine():
             yield {"family": "pairs-from-the-other-reading", "file": fn, "ops": [], "gaps": False}
+    # size: two crossing stems with 50 / 520 (thorough: 1100) hairpins between them
+    for nh in (50, 520) + ((1100,) if tier != "quick" else ()):
+        if mine():
+            yield {"family": "long-range-knot", "hairpins": nh, "file": "tests/1E7K_1_C.cif", "ops": [], "gaps": False}
     # ... for a structure whose chain identifier is blank (PDB files with an empty column 22): unit ids read 1ATO|1| |G|1
     for fn in ("tests/1ATO.pdb", "tests/1A1T_1_B.cif"):
         if mine():
@@ -619,6 +623,62 @@ def _adapter_two_listings(case, rec):
         rec.check("adapter.mapping-is-of-its-own-listing", got == want, lambda: {"ctx": _cur["ctx"], "paired-lines": [sum(1 for l in t.splitlines() if not l.endswith(" 0")) for t in (got, want)]})
 
 
+def _long_range_knot(case, rec):
+    """A chain of thousands of nucleotides (copies of real G and C residues) in which two stems that cross each other
+    are separated by hundreds of hairpins; the pair list is given the way an external tool would (author ids only)."""
+    from rnapolis import tertiary
+    from rnapolis.common import BasePair, LeontisWesthof, Residue, ResidueAuth, Saenger
+
+    src = gen3d.load("tests/1E7K_1_C.cif", 1)
+    tmpl = {}
+    for r in src.residues:
+        if r.one_letter_name in "GC" and r.one_letter_name not in tmpl and len(r.atoms) > 15:
+            tmpl[r.one_letter_name] = r
+    nh = case["hairpins"]
+    letters, pairs = [], []
+
+    def stem5(L):
+        a = len(letters) + 1
+        letters.extend("G" * L)
+        return list(range(a, a + L))
+
+    def stem3(L):
+        a = len(letters) + 1
+        letters.extend("C" * L)
+        return list(range(a, a + L))
+
+    x5 = stem5(3)
+    for _ in range(nh):
+        h5 = stem5(2)
+        letters.extend("GGG")
+        h3 = stem3(2)
+        pairs += list(zip(h5, reversed(h3)))
+        letters.append("G")
+    y5 = stem5(3)
+    x3 = stem3(3)
+    y3 = stem3(3)
+    pairs += list(zip(x5, reversed(x3))) + list(zip(y5, reversed(y3)))
+    residues = []
+    for i, l in enumerate(letters, 1):
+        t = tmpl[l]
+        auth = ResidueAuth("A", i, None, l)
+        off = (i * 3.0, 0.0, 0.0)
+        atoms = tuple(tertiary.Atom(None, None, auth, 1, a.name, a.x + off[0], a.y, a.z, 1.0) for a in t.atoms)
+        residues.append(tertiary.Residue3D(None, auth, 1, l, atoms))
+    s = tertiary.Structure3D(residues)
+    byn = {i + 1: r for i, r in enumerate(residues)}
+    bps = [BasePair(Residue(None, byn[i].auth), Residue(None, byn[j].auth), LeontisWesthof.cWW, Saenger.XIX) for i, j in sorted(pairs)]
+    _cur["ctx"] = {"long-range-knot": True, "hairpins-between-the-crossing-stems": nh, "nucleotides": len(residues)}
+    m = tertiary.Mapping2D3D(s, bps, [], False)
+    _cur["last_bpseq"] = None
+    for attr in ("bpseq", "dot_bracket", "extended_dot_bracket"):
+        try:
+            getattr(m, attr)
+        except Exception:
+            pass
+    rec.mark_nontrivial(True)
+
+
 def _pairs_from_the_other_reading(case, rec):
     from rnapolis import annotator, tertiary
     from vmon import emit
@@ -656,6 +716,8 @@ def run_case(case, rec):
         return _cli_vs_library(case, rec)
     if case["family"] == "pairs-from-the-other-reading":
         return _pairs_from_the_other_reading(case, rec)
+    if case["family"] == "long-range-knot":
+        return _long_range_knot(case, rec)
     if case["family"] == "adapter-two-listings":
         return _adapter_two_listings(case, rec)
     from rnapolis import annotator, tertiary
